@@ -395,6 +395,32 @@ def standin(tier, seed):
                             failures.append({"what": fail, "history": {"size": n, "Range": spec, "method": method, "If-None-Match": cond}})
                         if len(samples) < 3 and spec and m and n == 12:
                             samples.append({"size": n, "Range": spec, "status": r.status, "Content-Range": r.get("Content-Range")})
+        # If-Modified-Since in every shape a client can send: a date that cannot be used is ignored (the answer is the one without the header), never a server error
+        n = 12
+        content = bytes(range(65, 65 + n))
+        IMS = [("past", "Mon, 01 Jan 1990 00:00:00 GMT", "served"), ("future", "Fri, 01 Jan 2100 00:00:00 GMT", "304"), ("garbage", "not a date", "served"), ("empty", "", "served"),
+               ("day-out-of-range", "Fri, 41 Jan 2100 00:00:00 GMT", "served"), ("huge-zone", "Fri, 01 Jan 2100 00:00:00 +99999999999999999999", "served-or-304"),
+               ("zone-9999", "Fri, 01 Jan 2100 00:00:00 +9999", "served-or-304"), ("no-zone", "Fri, 01 Jan 2100 00:00:00", "served-or-304"), ("year-0", "Fri, 01 Jan 0000 00:00:00 GMT", "served"),
+               ("huge-year", "Fri, 01 Jan 99999999999 00:00:00 GMT", "served-or-304")]
+        for (label, value, expect), spec, method in itertools.product(IMS, [None, "bytes=1-4"], ["GET", "HEAD"]):
+            hs = [("If-Modified-Since", value)] + ([("Range", spec)] if spec else [])
+            r = run_request(app, method, "/s/f%d.bin" % n, hs)
+            plain = run_request(app, method, "/s/f%d.bin" % n, [("Range", spec)] if spec else [])
+            evals += 1
+            nontriv.add(("ims", label, spec, method))
+            fail = None
+            same_as_plain = (r.status, r.body, r.get("Content-Range"), r.get("Content-Length")) == (plain.status, plain.body, plain.get("Content-Range"), plain.get("Content-Length"))
+            is_304 = r.status == 304 and not r.body
+            if r.exc is not None or not r.finished:
+                fail = "request did not finish cleanly: %r" % (r.exc,)
+            elif expect == "304" and not is_304:
+                fail = "a file not modified since the given date: status %s, expected 304" % r.status
+            elif expect == "served" and not same_as_plain:
+                fail = "an unusable If-Modified-Since must be ignored: got status %s (without the header: %s)" % (r.status, plain.status)
+            elif expect == "served-or-304" and not (same_as_plain or is_304):
+                fail = "status %s: neither the answer without the header (%s) nor 304" % (r.status, plain.status)
+            if fail and len(failures) < 3:
+                failures.append({"what": fail, "history": {"If-Modified-Since": value, "Range": spec, "method": method}})
     finally:
         shutil.rmtree(d, ignore_errors=True)
     return {"evaluations": evals, "distinct_nontrivial": len(nontriv), "failures": failures, "samples": samples, "exhaustive": True,
